@@ -6,7 +6,10 @@ minimising f with mode='min' and maximising -f with mode='max' are the same expe
     get_top_list, SynchronousHyperbandBracket, SynchronousHyperbandBracketManager,
     SynchronousHyperbandScheduler, SynchronousGeometricHyperbandScheduler,
     DifferentialEvolutionHyperbandBracketManager (incl. top_of_previous_rung), DifferentialEvolutionHyperbandScheduler,
-    PASHARungSystem (soft ranking), HyperbandScheduler (stopping / promotion / pasha / rush_*)
+    PASHARungSystem (soft ranking), HyperbandScheduler (stopping / promotion / pasha / rush_*),
+    FIFOScheduler + RegularizedEvolution object (mode given to the searcher / only to the scheduler), MedianStoppingRule,
+    PopulationBasedTraining, FIFOScheduler (random / grid / bayesopt in its model-free initial phase),
+    TuningStatus + print_best_metric_found + Tuner.best_config      (the last four lines: C15 twin runs only)
 
 through a bounded catalogue (enumerated small cases + seed dependent random ones) and checks every step against an
 independent reference model written here (class ``_Ref``).  The reference only knows the PROPERTY STATEMENT:
@@ -83,6 +86,11 @@ CL_SYM_SCHED = "min-max-symmetry-sync-hyperband-scheduler"
 CL_SYM_DEHB_MGR = "min-max-symmetry-dehb-bracket-manager"
 CL_SYM_DEHB = "min-max-symmetry-dehb-scheduler"
 CL_SYM_SOFT = "min-max-symmetry-pasha-soft-ranking"
+CL_SYM_REA = "min-max-symmetry-regularized-evolution-suggestions"
+CL_SYM_MEDIAN = "min-max-symmetry-median-stopping-rule"
+CL_SYM_PBT = "min-max-symmetry-population-based-training"
+CL_SYM_BEST = "min-max-symmetry-best-trial-report"
+CL_SYM_FIFO = "min-max-symmetry-fifo-random-grid-bayesopt-random-phase"
 ASYNC_TYPES = ("stopping", "promotion", "pasha", "rush_stopping", "rush_promotion")
 
 
@@ -117,6 +125,11 @@ CLAUSES = [
     CL_SYM_DEHB_MGR,
     CL_SYM_DEHB,
     CL_SYM_SOFT,
+    CL_SYM_REA,
+    CL_SYM_MEDIAN,
+    CL_SYM_PBT,
+    CL_SYM_BEST,
+    CL_SYM_FIFO,
 ] + [CL_SYM_ASYNC(t) for t in ASYNC_TYPES]
 
 METRIC = "obj"
@@ -1258,6 +1271,342 @@ def _part_async(M, tier, rs):
     M.sample({"part": "HyperbandScheduler twin runs", "types": list(ASYNC_TYPES), "max_t": [8, 16, 27], "reduction_factor": [2, 3, 4], "workers": [1, 2, 4], "note": "mode=min on f vs mode=max on -f, noisy crossing learning curves"})
 
 
+
+# ---------------------------------------------------------------------------------------------------------------
+# part 5: further mode-taking components, twin runs (mode=min, f) vs (mode=max, -f)
+# ---------------------------------------------------------------------------------------------------------------
+def _dyadic_table(seed, n, m):
+    """n x m pairwise distinct multiples of 2^-10 (exact under negation, sums of a few of them are exact)"""
+    v = np.random.RandomState(seed).permutation(4 * n * m)[: n * m].reshape((n, m))
+    return (v - 2 * n * m) / 1024.0
+
+
+def _mixed_space(kind):
+    from syne_tune.config_space import choice, randint, uniform
+
+    if kind == 0:
+        return {"x": uniform(0.0, 1.0), "y": randint(0, 20), "c": choice(["a", "b", "c"])}
+    if kind == 1:
+        return {"c": choice(["a", "b", "c", "d"]), "d": choice([1, 2, 3]), "e": choice(["u", "v"]), "n": randint(1, 6)}
+    return {"x": uniform(0.0, 1.0), "z": uniform(-1.0, 1.0)}
+
+
+def _run_rea(wiring, mode, sign, kind, pop, samp, W, choices, fails, table, seeds, npts):
+    """FIFOScheduler + RegularizedEvolution object; wiring 'explicit': searcher built with mode=<mode>;
+    'configured': searcher built WITHOUT mode (default 'min'), it learns the mode from the scheduler"""
+    from syne_tune.optimizer.schedulers.fifo import FIFOScheduler
+    from syne_tune.optimizer.schedulers.searchers.regularized_evolution import RegularizedEvolution
+
+    Trial = _lib()["Trial"]
+    space = _mixed_space(kind)
+    kw = {"mode": mode} if wiring == "explicit" else {}
+    searcher = RegularizedEvolution(config_space=space, metric=METRIC, points_to_evaluate=[] if npts == 0 else None, population_size=pop, sample_size=samp, random_seed=seeds[0], **kw)
+    sched = FIFOScheduler(space, searcher=searcher, metric=METRIC, mode=mode, random_seed=seeds[1])
+    trace = []
+    running = []  # [job number, tid, next epoch, number of epochs, config]
+    next_tid = 0
+    ndone = 0
+    for ch in choices:
+        while len(running) < W:
+            sugg = sched.suggest(next_tid)
+            if sugg is None:
+                trace.append(("none",))
+                return trace, ndone
+            config = dict(sugg.config)
+            trace.append(("start", next_tid, _cfg_key(config), bool(sugg.spawn_new_trial_id)))
+            sched.on_trial_add(Trial(next_tid, config, None))
+            running.append([next_tid, next_tid, 1, 1 + next_tid % 3, config])
+            next_tid += 1
+        item = running[ch % len(running)]
+        j, tid, e, ne, config = item
+        trial = Trial(tid, config, None)
+        if j in fails:
+            running.remove(item)
+            sched.on_trial_error(trial)
+            trace.append(("err", tid))
+            continue
+        res = {METRIC: sign * float(table[tid % table.shape[0], e - 1]), RESOURCE: e}
+        dec = sched.on_trial_result(trial, res)
+        trace.append(("dec", tid, e, dec))
+        item[2] = e + 1
+        if e >= ne or dec != "CONTINUE":
+            running.remove(item)
+            sched.on_trial_complete(trial, res)
+            ndone += 1
+    return trace, ndone
+
+
+def _run_median(mode, sign, ra, gt, gp, rc, W, choices, table, seed, max_t):
+    from syne_tune.optimizer.schedulers.fifo import FIFOScheduler
+    from syne_tune.optimizer.schedulers.median_stopping_rule import MedianStoppingRule
+
+    Trial = _lib()["Trial"]
+    base = FIFOScheduler(_mixed_space(0), searcher="random", metric=METRIC, mode=mode, random_seed=seed, search_options={"debug_log": False})
+    sched = MedianStoppingRule(base, resource_attr=RESOURCE, running_average=ra, grace_time=gt, grace_population=gp, rank_cutoff=rc)
+    trace = []
+    running = []
+    next_tid = 0
+    nstop = 0
+    for ch in choices:
+        while len(running) < W:
+            sugg = sched.suggest(next_tid)
+            config = dict(sugg.config)
+            trace.append(("start", next_tid, _cfg_key(config)))
+            sched.on_trial_add(Trial(next_tid, config, None))
+            running.append([next_tid, 1, config])
+            next_tid += 1
+        item = running[ch % len(running)]
+        tid, e, config = item
+        trial = Trial(tid, config, None)
+        res = {METRIC: sign * float(table[tid % table.shape[0], e - 1]), RESOURCE: e}
+        dec = sched.on_trial_result(trial, res)
+        trace.append(("dec", tid, e, dec))
+        item[1] = e + 1
+        if dec != "CONTINUE":
+            nstop += 1
+            running.remove(item)
+            sched.on_trial_remove(trial)
+        elif e >= max_t:
+            running.remove(item)
+            sched.on_trial_complete(trial, res)
+    return trace, nstop
+
+
+def _run_pbt(mode, sign, ps, pi, qf, rp, W, choices, table, seed, max_t):
+    from syne_tune.backend.simulator_backend.time_keeper import SimulatedTimeKeeper
+    from syne_tune.optimizer.schedulers.pbt import PopulationBasedTraining
+
+    Trial = _lib()["Trial"]
+    sched = PopulationBasedTraining(_mixed_space(0), metric=METRIC, mode=mode, resource_attr=RESOURCE, max_t=max_t, population_size=ps, perturbation_interval=pi, quantile_fraction=qf, resample_probability=rp, random_seed=seed, search_options={"debug_log": False})
+    tk = SimulatedTimeKeeper()
+    tk.start_of_time()
+    sched.set_time_keeper(tk)
+    trace = []
+    running = []
+    last_epoch = {}
+    next_tid = 0
+    nclone = 0
+    for ch in choices:
+        while len(running) < W:
+            sugg = sched.suggest(next_tid)
+            if sugg is None:
+                trace.append(("none",))
+                return trace, nclone
+            config = {k: v for k, v in sugg.config.items() if k != "elapsed_time"}
+            src = sugg.checkpoint_trial_id
+            nclone += src is not None
+            trace.append(("start", next_tid, _cfg_key(config), bool(sugg.spawn_new_trial_id), src))
+            sched.on_trial_add(Trial(next_tid, dict(sugg.config), None))
+            running.append([next_tid, last_epoch.get(src, 0) + 1, dict(sugg.config)])
+            next_tid += 1
+        item = running[ch % len(running)]
+        tid, e, config = item
+        trial = Trial(tid, config, None)
+        tk.advance(1.0)
+        res = {METRIC: sign * float(table[tid % table.shape[0], (e - 1) % table.shape[1]]), RESOURCE: e}
+        dec = sched.on_trial_result(trial, res)
+        trace.append(("dec", tid, e, dec))
+        last_epoch[tid] = e
+        item[1] = e + 1
+        if dec != "CONTINUE":
+            running.remove(item)
+            sched.on_trial_remove(trial)
+    return trace, nclone
+
+
+def _run_fifo(searcher, mode, sign, W, choices, table, seed):
+    from syne_tune.config_space import choice, randint
+    from syne_tune.optimizer.schedulers.fifo import FIFOScheduler
+
+    Trial = _lib()["Trial"]
+    space = {"n": randint(1, 5), "c": choice(["a", "b", "c"])} if searcher == "grid" else _mixed_space(0)
+    opts = {"debug_log": False}
+    if searcher == "bayesopt":
+        opts["num_init_random"] = len(choices) + W + 5  # the whole run stays in the model-free initial phase
+    sched = FIFOScheduler(space, searcher=searcher, metric=METRIC, mode=mode, random_seed=seed, search_options=opts)
+    trace = []
+    running = []
+    next_tid = 0
+    for ch in choices:
+        while len(running) < W:
+            sugg = sched.suggest(next_tid)
+            if sugg is None:
+                trace.append(("none",))
+                return trace
+            config = dict(sugg.config)
+            trace.append(("start", next_tid, _cfg_key(config)))
+            sched.on_trial_add(Trial(next_tid, config, None))
+            running.append([next_tid, config])
+            next_tid += 1
+        tid, config = running.pop(ch % len(running))
+        trial = Trial(tid, config, None)
+        res = {METRIC: sign * float(table[tid % table.shape[0], 0]), RESOURCE: 1}
+        trace.append(("dec", tid, sched.on_trial_result(trial, res)))
+        sched.on_trial_complete(trial, res)
+    return trace
+
+
+def _best_reports(mode, sign, order, table, nres, statuses):
+    """TuningStatus fed with the results in the given order; answers of print_best_metric_found and Tuner.best_config"""
+    import contextlib
+    import io
+    import types
+
+    from syne_tune.optimizer.schedulers.fifo import FIFOScheduler
+    from syne_tune.tuner import Tuner
+    from syne_tune.tuning_status import TuningStatus, print_best_metric_found
+
+    Trial = _lib()["Trial"]
+    ts = TuningStatus(metric_names=[METRIC])
+    trials = {}
+    out = []
+    for k, (tid, e) in enumerate(order):
+        trials.setdefault(tid, Trial(tid, {"x": 0.5 + tid}, None))
+        ts.update({tid: (trials[tid], statuses[k % len(statuses)])}, [(tid, {METRIC: sign * float(table[tid, e]), RESOURCE: e + 1})])
+        if k % nres == nres - 1 or k == len(order) - 1:
+            with contextlib.redirect_stdout(io.StringIO()):
+                a = print_best_metric_found(ts, [METRIC], mode)
+                fake = types.SimpleNamespace(scheduler=FIFOScheduler({"x": _mixed_space(2)["x"]}, searcher="random", metric=METRIC, mode=mode, random_seed=0, search_options={"debug_log": False}), tuning_status=ts, trial_backend=types.SimpleNamespace(_trial_dict=trials))
+                b = Tuner.best_config(fake)
+            out.append((int(a[0]), sign * float(a[1]), int(b[0]), _cfg_key(b[1])))
+    return out
+
+
+def _part_more_twins(M, tier, rs):
+    quick = tier == "quick"
+    # --- regularised evolution: FIFOScheduler(searcher=<object>), both wirings of the mode
+    nfull = 0
+    for k in range(10 if quick else 60):
+        kind = k % 3
+        pop = int(rs.choice([3, 5, 8]))
+        samp = int(rs.choice([2, 4, 10]))
+        W = int(rs.choice([1, 2, 4]))
+        T = int(rs.randint(6 * pop, 6 * pop + 40))
+        choices = [int(x) for x in rs.randint(0, 1000, size=T)]
+        pfail = float(rs.choice([0.0, 0.1]))
+        fails = {int(j) for j in np.nonzero(rs.rand(T + W) < pfail)[0]}
+        tseed = int(rs.randint(0, 10 ** 6))
+        table = _dyadic_table(tseed, 128, 3)
+        seeds = (int(rs.randint(0, 10 ** 4)), int(rs.randint(0, 10 ** 4)))
+        npts = k % 2
+        ctx = {"part": "FIFOScheduler + RegularizedEvolution object", "config_space_kind": kind, "population_size": pop, "sample_size": samp, "workers": W, "steps": T, "failing_trials": sorted(fails), "table_seed": tseed, "seeds(searcher,scheduler)": seeds, "default_initial_point": bool(npts), "choices_head": choices[:20]}
+        runs = {}
+        try:
+            for wiring in ("explicit", "configured"):
+                for mode, sign in (("min", 1.0), ("max", -1.0)):
+                    runs[(wiring, mode)], nd = _run_rea(wiring, mode, sign, kind, pop, samp, W, choices, fails, table, seeds, npts)
+        except Exception as e:
+            M.check(CL_SYM_REA, False, ctx, raised=repr(e)[:300])
+            continue
+        nfull += nd > 2 * pop
+        M.distinct += 1
+        ref_trace = runs[("explicit", "min")]
+        for key in (("configured", "min"), ("explicit", "max"), ("configured", "max")):
+            t = runs[key]
+            if t == ref_trace:
+                M.check(CL_SYM_REA, True)
+            else:
+                kd = next((i for i, (a, b) in enumerate(zip(ref_trace, t)) if a != b), min(len(ref_trace), len(t)))
+                M.check(CL_SYM_REA, False, ctx, searcher_mode_wiring=key[0], scheduler_mode=key[1], first_difference_at_event=kd, min_on_f_explicit_mode=ref_trace[kd] if kd < len(ref_trace) else None, this_run=t[kd] if kd < len(t) else None, reason="suggestions differ from the run (mode=min on f, searcher built with mode='min')")
+    if nfull == 0:
+        raise RuntimeError("regularised evolution twins never filled the population twice")
+    M.sample({"part": "FIFOScheduler + RegularizedEvolution object", "wirings": ["searcher built with explicit mode", "searcher built without mode, configured by the scheduler"], "population_size": [3, 5, 8], "sample_size": [2, 4, 10], "workers": [1, 2, 4]})
+    # --- median stopping rule
+    nstops = 0
+    combos = [(ra, gt, gp, rc) for ra in (True, False) for gt in (1, 2, 4) for gp in (1, 3, 5) for rc in (0.25, 0.5, 0.75)]
+    for k, (ra, gt, gp, rc) in enumerate(combos):
+        for rep in range(1 if quick else 4):
+            W = int(rs.choice([1, 2, 3, 5]))
+            max_t = int(rs.choice([4, 7]))
+            T = int(rs.randint(60, 140))
+            choices = [int(x) for x in rs.randint(0, 1000, size=T)]
+            tseed = int(rs.randint(0, 10 ** 6))
+            table = _dyadic_table(tseed, 160, max_t)
+            seed = int(rs.randint(0, 10 ** 4))
+            ctx = {"part": "MedianStoppingRule(FIFOScheduler(random))", "running_average": ra, "grace_time": gt, "grace_population": gp, "rank_cutoff": rc, "workers": W, "max_t": max_t, "steps": T, "table_seed": tseed, "scheduler_seed": seed, "choices_head": choices[:20]}
+            try:
+                ta, ns = _run_median("min", 1.0, ra, gt, gp, rc, W, choices, table, seed, max_t)
+                tb, _ = _run_median("max", -1.0, ra, gt, gp, rc, W, choices, table, seed, max_t)
+            except Exception as e:
+                M.check(CL_SYM_MEDIAN, False, ctx, raised=repr(e)[:300])
+                continue
+            nstops += ns
+            M.distinct += 1
+            _sym_compare(M, CL_SYM_MEDIAN, ctx, ta, tb)
+    if nstops == 0:
+        raise RuntimeError("median rule twins never stopped a trial")
+    M.stat("median_rule_stops(min runs)", nstops)
+    # --- population based training
+    nclones = 0
+    for k in range(8 if quick else 40):
+        ps = int(rs.choice([2, 3, 4, 6]))
+        pi = int(rs.choice([1, 2, 3]))
+        qf = float(rs.choice([0.25, 0.34, 0.5]))
+        rp = float(rs.choice([0.0, 0.25, 1.0]))
+        max_t = int(rs.choice([6, 9, 12]))
+        W = ps
+        T = int(rs.randint(60, 160))
+        choices = [int(x) for x in rs.randint(0, 1000, size=T)]
+        tseed = int(rs.randint(0, 10 ** 6))
+        table = _dyadic_table(tseed, 128, max_t)
+        seed = int(rs.randint(0, 10 ** 4))
+        ctx = {"part": "PopulationBasedTraining", "population_size": ps, "perturbation_interval": pi, "quantile_fraction": qf, "resample_probability": rp, "max_t": max_t, "workers": W, "steps": T, "table_seed": tseed, "scheduler_seed": seed, "choices_head": choices[:20]}
+        try:
+            ta, nc = _run_pbt("min", 1.0, ps, pi, qf, rp, W, choices, table, seed, max_t)
+            tb, _ = _run_pbt("max", -1.0, ps, pi, qf, rp, W, choices, table, seed, max_t)
+        except Exception as e:
+            M.check(CL_SYM_PBT, False, ctx, raised=repr(e)[:300])
+            continue
+        nclones += nc
+        M.distinct += 1
+        _sym_compare(M, CL_SYM_PBT, ctx, ta, tb)
+    if nclones == 0:
+        raise RuntimeError("PBT twins never exploited another trial")
+    M.stat("pbt_clones(min runs)", nclones)
+    # --- FIFOScheduler with model-free searchers / model-based searcher in its random phase
+    for searcher in ("random", "grid", "bayesopt"):
+        for k in range(2 if quick else 6):
+            W = int(rs.choice([1, 3]))
+            T = int(rs.randint(8, 14))
+            choices = [int(x) for x in rs.randint(0, 1000, size=T)]
+            tseed = int(rs.randint(0, 10 ** 6))
+            seed = int(rs.randint(0, 10 ** 4))
+            ctx = {"part": "FIFOScheduler", "searcher": searcher, "workers": W, "steps": T, "table_seed": tseed, "scheduler_seed": seed}
+            try:
+                ta = _run_fifo(searcher, "min", 1.0, W, choices, _dyadic_table(tseed, 64, 1), seed)
+                tb = _run_fifo(searcher, "max", -1.0, W, choices, _dyadic_table(tseed, 64, 1), seed)
+            except Exception as e:
+                M.check(CL_SYM_FIFO, False, ctx, raised=repr(e)[:300])
+                continue
+            M.distinct += 1
+            _sym_compare(M, CL_SYM_FIFO, ctx, ta, tb)
+    # --- best trial reports: TuningStatus / print_best_metric_found / Tuner.best_config
+    from syne_tune.backend.trial_status import Status
+
+    for k in range(20 if quick else 150):
+        ntr = int(rs.randint(1, 9))
+        nep = int(rs.randint(1, 6))
+        tseed = int(rs.randint(0, 10 ** 6))
+        table = _dyadic_table(tseed, ntr, nep)
+        order = [(t, e) for e in range(nep) for t in range(ntr)]
+        perm = rs.permutation(len(order))
+        order = sorted(order, key=lambda te: (te[1], perm[te[0] + ntr * te[1]] if k % 2 else te[0]))  # epochs in order per trial, trials interleaved
+        nres = int(rs.choice([1, 3, 7]))
+        statuses = [Status.in_progress, Status.completed, Status.paused]
+        ctx = {"part": "TuningStatus + print_best_metric_found + Tuner.best_config", "trials": ntr, "epochs": nep, "table_seed": tseed, "order": order, "query_every": nres}
+        try:
+            a = _best_reports("min", 1.0, order, table, nres, statuses)
+            b = _best_reports("max", -1.0, order, table, nres, statuses)
+        except Exception as e:
+            M.check(CL_SYM_BEST, False, ctx, raised=repr(e)[:300])
+            continue
+        M.distinct += 1
+        ok = a == b
+        kd = next((i for i, (x, y) in enumerate(zip(a, b)) if x != y), None)
+        M.check(CL_SYM_BEST, ok, ctx, query_number=kd, min_on_f=None if kd is None else a[kd], max_on_minus_f=None if kd is None else b[kd], reason="(best trial, best value of f, trial and configuration of Tuner.best_config) differ")
+    M.sample({"part": "further twins", "components": ["RegularizedEvolution via FIFOScheduler", "MedianStoppingRule (54 parameter combinations)", "PopulationBasedTraining", "FIFOScheduler random/grid/bayesopt(random phase)", "print_best_metric_found / Tuner.best_config"]})
+
+
 # ---------------------------------------------------------------------------------------------------------------
 def monitor_sync(tier="quick", seed=0):
     prev_disable = logging.root.manager.disable
@@ -1270,6 +1619,7 @@ def monitor_sync(tier="quick", seed=0):
         _part_schedulers(M, tier, np.random.RandomState(rs.randint(0, 2 ** 31 - 1)))
         _part_pasha_soft(M, tier, np.random.RandomState(rs.randint(0, 2 ** 31 - 1)))
         _part_async(M, tier, np.random.RandomState(rs.randint(0, 2 ** 31 - 1)))
+        _part_more_twins(M, tier, np.random.RandomState(rs.randint(0, 2 ** 31 - 1)))
     finally:
         logging.disable(prev_disable)
     empty = [c for c in CLAUSES if M.counts[c] == 0 and c not in M.nviol]
@@ -1286,6 +1636,6 @@ def monitor_sync(tier="quick", seed=0):
         "tier %s seed %d: get_top_list all rank permutations x failure subsets x new_len for rungs <= %d slots (+ random <= 13); single brackets <= 7 jobs, 1-3 workers: return orders x failure subsets, complete where <= %d combinations, else sampled; "
         "bracket managers (sync, DEHB): every (return choice, fail/report) sequence of %s steps for 2-3 workers on 2-3 bracket systems, random schedules 1-9 workers <= %d steps on geometric/custom systems up to 5 rungs, failure probability 0-0.9, with and without ties; "
         "SynchronousHyperbandScheduler / SynchronousGeometricHyperbandScheduler / DEHB scheduler (pause-resume on/off) driven by a miniature Tuner, enumerated <= %d steps + random <= %d steps (DEHB: failures keep enough survivors; arbitrary failures and fewer brackets than rungs under the dehb-... clauses), both modes, twin runs min/f vs max/-f; "
-        "PASHA soft ranking: all permutations of <= %d trials x gap patterns x 6 epsilons; HyperbandScheduler types %s: %d twin runs each (pasha x3), <= 260/500 events, reduction factors 2/4 (exact) and 3 (excused at round-off ties); checks per clause: %s"
-    ) % (tier, seed, 5 if tier == "quick" else 6, 1000 if tier == "quick" else 20000, "3-5" if tier == "quick" else "5-7", 70 if tier == "quick" else 160, 5 if tier == "quick" else 6, 70 if tier == "quick" else 150, 4 if tier == "quick" else 5, "/".join(ASYNC_TYPES), 8 if tier == "quick" else 40, M.counts)
+        "PASHA soft ranking: all permutations of <= %d trials x gap patterns x 6 epsilons; HyperbandScheduler types %s: %d twin runs each (pasha x3), <= 260/500 events, reduction factors 2/4 (exact) and 3 (excused at round-off ties); further twins: RegularizedEvolution object in FIFOScheduler (2 mode wirings x 2 modes, %d scenarios, population 3-8, 1-4 workers, failures), MedianStoppingRule (running_average x grace_time 1/2/4 x grace_population 1/3/5 x rank_cutoff .25/.5/.75, %d schedules each, 1-5 workers), PBT (%d), FIFO random/grid/bayesopt-random-phase (%d each), best-trial reports (%d); checks per clause: %s"
+    ) % (tier, seed, 5 if tier == "quick" else 6, 1000 if tier == "quick" else 20000, "3-5" if tier == "quick" else "5-7", 70 if tier == "quick" else 160, 5 if tier == "quick" else 6, 70 if tier == "quick" else 150, 4 if tier == "quick" else 5, "/".join(ASYNC_TYPES), 8 if tier == "quick" else 40, 10 if tier == "quick" else 60, 1 if tier == "quick" else 4, 8 if tier == "quick" else 40, 2 if tier == "quick" else 6, 20 if tier == "quick" else 150, M.counts)
     return {"evaluations": int(sum(M.counts.values())), "distinct": int(M.distinct), "clauses": list(CLAUSES), "violations": M.viol, "samples": M.samples[:4], "summary": summary + "; stats: %s" % (M.stats,)}
